@@ -41,6 +41,9 @@ TCopy == /\ Is("copy")
          /\ ~exists => Ev.rc # 0
          /\ views' = (IF Ev.rc = 0 THEN (Ev.n :> cur) @@ views ELSE views) /\ UNCHANGED <<holder, cur, exists, lsb>>
 \* another comparator is refused without modifying the database
+\* a backup / copy whose target directory already holds a database (an earlier backup, or the source itself) is refused; the
+\* backup_scan / scan events that follow show that nothing was touched
+TOver == (Is("backup_over") \/ Is("copy_over") \/ Is("backup_self")) /\ Ev.rc # 0 /\ UNCHANGED <<holder, cur, exists, views, lsb>>
 TLsBefore == Is("ls_before") /\ lsb' = Own(SetOf(Ev.names)) /\ UNCHANGED <<holder, cur, exists, views>>
 TWrongCmp == Is("open_wrongcmp") /\ Ev.rc # 0 /\ UNCHANGED <<holder, cur, exists, views, lsb>>
 \* (while somebody holds the database, the holder's own background compactions may create and remove files between the
@@ -54,7 +57,7 @@ TDestroy == /\ Is("destroy")
 TLsDestroyed == /\ Is("ls_destroyed")
                 /\ (~exists /\ holder = None) => (SetOf(Ev.names) \subseteq {"notes.txt"})
                 /\ UNCHANGED <<holder, cur, exists, views, lsb>>
-Next == TReset \/ TOpen \/ TClose \/ TPut \/ TScan \/ TBackup \/ TBackupScan \/ TCopy \/ TLsBefore \/ TWrongCmp \/ TLsAfter \/ TDestroy \/ TLsDestroyed
+Next == TOver \/ TReset \/ TOpen \/ TClose \/ TPut \/ TScan \/ TBackup \/ TBackupScan \/ TCopy \/ TLsBefore \/ TWrongCmp \/ TLsAfter \/ TDestroy \/ TLsDestroyed
 Spec == Init /\ [][Next]_vars
 AtMostOneHandle == TRUE   \* by construction of TOpen: holder is a single value
 =============================================================================
